@@ -313,7 +313,7 @@ func c02ItemFields(c *Ctx) {
 	} else {
 		c.Fn(FuncName(fn))
 		fs := fieldStores(fn, "Block")
-		c.Floor("item.fields Block literals", len(fs), 2, "the recovery return and the normal return")
+		c.Floor("item.fields Block literals", len(fs), 1, "the recovery return and the normal return")
 		// label list: phi web of appends
 		isLabelList := func(v ssa.Value) bool {
 			seen := map[ssa.Value]bool{}
@@ -505,7 +505,7 @@ func c02Labels(c *Ctx) {
 		}
 	}
 	c.Check(armOK, "labels.decoded", FuncName(fn)+":arm[TokenQuotedLit]", fn.Pos(), "every TokenQuotedLit is handed to ParseStringLiteralToken", "the TokenQuotedLit arm does not hand every literal token to ParseStringLiteralToken before anything else is decided")
-	c.Floor("labels.decoded buffer writes", writes, 2, "decoded literal and error marker")
+	c.Floor("labels.decoded buffer writes", writes, 1, "decoded literal and error marker")
 	c.Floor("labels.decoded decoded writes", decoded, 1, "the literal arm")
 }
 
